@@ -74,7 +74,8 @@ class Slicer:
         self.defs = defaultdict(list)       # variable atom -> [set(atoms)]
         self.param_root = {}                # local id -> root atom
         self.names = {}
-        for p in fn.get("params", []):
+        for pi, p in enumerate(fn.get("params", [])):
+            self._pidx = pi
             self._bind_params(p["pat"])
         self._walk(fn["hir"])
         self._cache = {}
@@ -86,7 +87,8 @@ class Slicer:
             self.names[pat["id"]] = pat["name"]
             if pat["name"] == "self":
                 return
-            self.param_root[pat["id"]] = ("param", pat["name"])
+            # parameters are identified by position (robust against renaming); the name is kept for messages
+            self.param_root[pat["id"]] = ("param", "#%d:%s" % (getattr(self, "_pidx", 0), pat["name"]))
             if "sub" in pat:
                 self._bind_params(pat["sub"], path)
         elif k in ("Tuple", "TupleStruct", "Or"):
